@@ -537,7 +537,7 @@ fn c14(tier: Tier) -> Vec<SeqCfg> {
     // limit however many rounds that takes; whatever a long eviction leaves behind, the next store
     // is again within L + its own record.  The full victim tree of such a step is factorial: the
     // first record in iteration order is the default victim, every step may depart from it at most
-    // once (quick) / twice (thorough)
+    // once
     {
         let mut a: Vec<Cmd> = vec![];
         for i in 0..12u8 {
@@ -553,8 +553,11 @@ fn c14(tier: Tier) -> Vec<SeqCfg> {
         a.push(set(b"c1", b"n", 79, 0)); // 17
         a.push(append(b"c0", b"+", Zero)); // 18
         a.push(delete(b"kb", Zero)); // 19
-        let dev = if tier == Tier::Quick { 1 } else { 2 };
-        let mut c = base(&format!("C14/nine-victims-in-a-row-L=300/victim-deviations<={}", dev), "C14", a, if tier == Tier::Quick { 2 } else { 3 }, tier);
+        // (both tiers: depth 2 behind the start histories, one departure per step - 0.26 M histories;
+        // a third level stopped at the 12 M cap after 5 min without completing, two departures per
+        // step would be ~10^9 histories)
+        let dev = 1;
+        let mut c = base(&format!("C14/nine-victims-in-a-row-L=300/victim-deviations<={}", dev), "C14", a, 2, tier);
         c.sut.policy = Policy::Random(300);
         c.evict = Evict::Tight;
         c.victim_deviations = Some(dev);
